@@ -1501,6 +1501,26 @@ func checkFrameLimits(c *Ctx, w *zworld) {
 				if ms, ok := in.(*ssa.MakeSlice); ok && dominates(lengthV.(ssa.Instruction), in) {
 					bound := lt.plus(linVar("p:maxPacketLength"), -1)
 					ok1, _ := z.prove(in, []lin{bound})
+					// the limit is whatever the caller's allowance is held in (a parameter, a field of a parameter
+					// struct): the non-constant value the decoded length is compared with
+					if !ok1 {
+						for _, r := range *lengthV.Referrers() {
+							cmp, isCmp := r.(*ssa.BinOp)
+							if !isCmp {
+								continue
+							}
+							other := cmp.X
+							if other == lengthV {
+								other = cmp.Y
+							}
+							if _, isK := other.(*ssa.Const); isK {
+								continue
+							}
+							if okM, _ := z.prove(in, []lin{lt.plus(z.term(other), -1)}); okM {
+								ok1 = true
+							}
+						}
+					}
 					ok2, _ := z.prove(in, []lin{leq(linConst(5), lt, 0)})
 					// … and what is allocated is the frame's own length, not the limit (a 100-byte frame must not cost the
 					// caller's whole allowance)
